@@ -288,3 +288,46 @@ def gen_tree_case(rng, prof: dict | None = None) -> dict:
 
 def engine_mix(desc: dict) -> str:
     return ">".join(lv["engine"] for lv in desc["levels"])
+
+
+def gen_minimize_case(rng, prof: dict | None = None) -> dict:
+    """Descriptor for the scipy-style convenience entry point minimize(fun, bounds, maxfun|maxiter, seed)."""
+    p = prof or {}
+    d = rng.randint(*p.get("dim", (2, 4)))
+    box = gen_box(rng, d, p.get("box") or rng.choice(p.get("boxes", ["sym", "asym", "decimal", "mixed", "offset", "tiny"])))
+    fam = p.get("fam") or rng.choice(p.get("fams", FAMILIES))
+    obj = gen_objective(rng, d, fam)
+    pop = 10 + 2 * d
+    budget = p.get("budget") or rng.choice(["maxfun", "maxfun", "maxiter"])
+    maxfun = maxiter = None
+    if budget == "maxfun":
+        maxfun = rng.choice([1, 2, 5, pop - 1, pop, pop + 1, 2 * pop + 3, rng.randint(30, 400), rng.randint(100, 1500)])
+    else:
+        maxiter = rng.randint(1, 5)
+    desc = {
+        "gen": GEN_VERSION,
+        "kind": "minimize",
+        "box": box,
+        "obj": obj,
+        "maximize": False,
+        "maxfun": maxfun,
+        "maxiter": maxiter,
+        "seed": rng.randint(0, 10**6) if rng.random() < 0.8 or p.get("pair") else None,
+        "bounds_as": rng.choice(["array", "list"]),
+        "np_seed": rng.randint(0, 2**31 - 1),
+        # what minimize() builds internally (for the monitors' look-ups only)
+        "levels": [
+            {"engine": "sea", "pop": pop, "gens": 1, "k_elites": 1, "p_mutation": 1.0, "lsc": {"k": "dontstop"}, "stack": []},
+            {"engine": "cma_warm", "gens": 20, "lsc": {"k": "steady"}, "stack": []},
+        ],
+        "shared": True,
+        "gsc": {"k": "evals", "n": maxfun} if maxfun is not None else {"k": "melimit", "n": maxiter},
+        "sprout": {"k": "nbc", "gdf": 3.0, "trunc": 0.7, "fdf": 3.0, "ll": 4},
+        "options": {},
+        "entry": "minimize",
+    }
+    if p.get("pair"):
+        n1 = rng.choice([1, 3, pop - 1, pop + 2, rng.randint(20, 300)])
+        n2 = n1 + rng.choice([1, 2, pop, rng.randint(10, 500)])
+        desc.update({"pair": True, "maxfun": n1, "maxfun2": n2, "maxiter": None, "gsc": {"k": "evals", "n": n1}})
+    return desc
